@@ -386,7 +386,27 @@ def analyze(ctx, want):
                 ob("C15.c", "%s:child-error-propagates" % v.lower(), kind == "Err", "child Err -> %s" % kind, fn.loc())
                 seen.add("err")
                 continue
-            ok_child = "item@" in child
+            def has_asts(b):
+                return re.search(r"\.asts\b", S.vstr(b)) is not None
+
+            def first_of_list(x):
+                # the first element of the list taken on its own: `asts.split_first()` -> (first, rest), `asts.first()`, `asts[0]`
+                n_ = 0
+                while x[0] in ("ref", "deref") and n_ < 6:
+                    x = (ex.deref_val(p, x) if x[0] == "ref" else x[1])
+                    n_ += 1
+                if x[0] == "app" and re.search(r"clone::Clone>::clone$", str(x[1])) and x[2]:
+                    return first_of_list(x[2][0])
+                if x[0] == "field" and x[2] == "0" and x[1][0] == "field" and x[1][2] == "0" and x[1][1][0] == "downcast" and x[1][1][2] == "Some":
+                    b = x[1][1][1]
+                    return b[0] == "app" and re.search(r"<impl \[.*\]>::split_first$", str(b[1])) is not None and has_asts(b)
+                if x[0] == "field" and x[2] == "0" and x[1][0] == "downcast" and x[1][2] == "Some":
+                    b = x[1][1]
+                    return b[0] == "app" and re.search(r"<impl \[.*\]>::first$", str(b[1])) is not None and has_asts(b)
+                if x[0] == "index" and x[2] == ("int", 0):
+                    return has_asts(x[1])
+                return False
+            ok_child = "item@" in child or first_of_list(rec[0][3][0])
             ob2(("C02.c", "C15.c"), "%s:recurses-on-the-current-element" % v.lower(), ok_child, "recursive call on %s" % child, fn.loc())
             nxs = [e for e in p.events if e[0] == "call" and re.search(r"Iterator>::next$", e[2])]
             exhausted_last = bool(nxs) and any(k_[0][0] == "sym" and str(k_[0][1]).startswith("__exhausted__") and v_ == ("bool", True) for k_, v_ in p.heap.items())
